@@ -267,7 +267,10 @@ impl Ctx {
     /// Write evidence + replays, print verdict lines, return the process exit code.
     pub fn finish(&self, acc: &Acc, level: &str) -> i32 {
         let wall = self.start.elapsed().as_secs_f64();
-        let replay_dir = PathBuf::from(format!("{VERIF_DIR}/replays"));
+        // VERIF_OUT_DIR (never set by a registered command) redirects evidence and replays of side runs — seeded
+        // changes, mutants, background thorough runs — so that they cannot overwrite the unchanged tree's evidence
+        let out_root = std::env::var("VERIF_OUT_DIR").unwrap_or_else(|_| VERIF_DIR.to_string());
+        let replay_dir = PathBuf::from(format!("{out_root}/replays"));
         let _ = std::fs::create_dir_all(&replay_dir);
         // remove stale replays of this property
         if let Ok(rd) = std::fs::read_dir(&replay_dir) {
@@ -344,7 +347,7 @@ impl Ctx {
             "wall_s": wall,
             "violations": acc.viol_total,
         });
-        let evdir = format!("{VERIF_DIR}/evidence");
+        let evdir = format!("{out_root}/evidence");
         let _ = std::fs::create_dir_all(&evdir);
         let evp = format!("{evdir}/{}.json", self.prop);
         if let Err(e) = std::fs::write(&evp, serde_json::to_string_pretty(&ev).unwrap_or_default()) {
